@@ -448,12 +448,16 @@ def check(drv, pid, tier, seed):
 
     # only the first three cases are written out: those that also fail one of the property's own predicates
     # (concrete failing inputs) come first
+    # (a mismatching case without a failing predicate leaves room for up to two cases that fail a predicate although
+    # model and implementation agree on the recorded calls - those are concrete failing inputs too)
+    _mis = set(m[0] for m in mism)
+    room = min(2, len([g for g in pred if g not in _mis]))
     for (g, step, shard, local) in sorted(mism, key=lambda m: (m[0] not in pred, m[0])):
         trace = meta['traces'][g]
         if is_known('\n'.join(trace)):
             continue
         viol += 1
-        if reported >= 3:
+        if reported >= 3 or (g not in pred and reported >= 3 - room):
             continue
         reported += 1
         mv = model_view(drv, pid, outdir, shard, local, step)
